@@ -1,3 +1,7 @@
+// Verification hook: resolve this module's `std::` paths through the facade.
+#[cfg(divan_verif)]
+use ::divan_verif_rt::shim as std;
+
 use std::{
     cell::UnsafeCell,
     fmt,
@@ -1398,6 +1402,16 @@ impl<'a> BenchContext<'a> {
             },
             counts,
         }
+    }
+}
+
+#[cfg(divan_verif)]
+impl BenchContext<'_> {
+    /// Verification hook: raw access to the recorded samples and counters.
+    pub(crate) fn verif_parts(
+        &mut self,
+    ) -> (&mut SampleCollection, &mut CounterCollection) {
+        (&mut self.samples, &mut self.counters)
     }
 }
 
